@@ -94,9 +94,26 @@ fn exec_server(c: &SysCase) -> (Outcome, bool) {
             return (out, false);
         }
     };
+    // the same session from a second source address now and then (a client behind a NAT that rebinds, or a copy of a
+    // datagram injected from elsewhere): the session, and with it the record of accepted ids, is the session id's, not
+    // the address's
+    let rc2 = RefUdpClient::new(&cl.cred, cl.server_port, rc.sid).ok();
+    let mut from_second = 0;
     for (k, id) in ids.iter().enumerate() {
-        rc.send(*id, &taddr, &payload_for(k, *id));
+        let second = k > 0 && ((c.seed.rotate_left((k % 61) as u32) ^ k as u64) & 3) == 0;
+        match (&rc2, second) {
+            (Some(r2), true) => {
+                from_second += 1;
+                r2.send(*id, &taddr, &payload_for(k, *id));
+            }
+            _ => {
+                rc.send(*id, &taddr, &payload_for(k, *id));
+            }
+        }
         std::thread::sleep(Duration::from_millis(2));
+    }
+    if from_second > 0 {
+        out.label("some-datagrams-from-a-second-source-address");
     }
     let want: Vec<Vec<u8>> = ids.iter().enumerate().filter(|(k, _)| bits[*k]).map(|(k, id)| payload_for(k, *id)).collect();
     let t0 = Instant::now();
